@@ -22,6 +22,9 @@ pub enum TState {
 #[derive(Clone, Copy, Debug, PartialEq, Eq)]
 pub enum Point {
     Start,
+    /// The library itself gave up the CPU (`sched_yield`, `nanosleep`): always a switch to
+    /// another runnable thread if there is one.
+    Yield,
     Site(u32),
     OpBoundary,
     Exit,
@@ -93,6 +96,7 @@ pub struct Sched {
     pub late: Vec<Option<usize>>,
     pub thread_exits_joined: u64,
     pub late_starts: u64,
+    pub yields: u64,
 }
 
 pub fn lock(m: &Mutex<Sched>) -> MutexGuard<'_, Sched> {
@@ -179,6 +183,7 @@ impl Sched {
             late: spec.late.clone().unwrap_or_default(),
             thread_exits_joined: 0,
             late_starts: 0,
+            yields: 0,
         }
     }
 
@@ -255,6 +260,11 @@ impl Sched {
                 }
             }
         }
+        // the library is explicitly waiting for somebody (yield / sleep inside a call): a
+        // thread frozen by the stall policy may be the one it waits for
+        if point == Point::Yield && self.stalled.is_some() && self.stalled != me {
+            self.stalled = None;
+        }
         // bounded stall: release the victim after `release` operation boundaries of others
         if let (PolState::Stall { release, seen, .. }, Some(st), Point::OpBoundary) =
             (&mut self.pol, self.stalled, point)
@@ -275,6 +285,16 @@ impl Sched {
             return Some(cands[0]);
         }
         let idx = self.decisions.len();
+        if point == Point::Yield && self.replay.is_none() {
+            // the yielding thread does not stay: uniformly one of the others
+            let others: Vec<usize> = cands.iter().copied().filter(|&c| Some(c) != me).collect();
+            if !others.is_empty() {
+                let choice = others[self.rng.below(others.len())];
+                self.decisions.push(choice as u8);
+                self.sched_hash.bytes(&[choice as u8]);
+                return Some(choice);
+            }
+        }
         let choice = if let Some(list) = &self.replay {
             let c = list.get(self.replay_pos).map(|&c| c as usize);
             self.replay_pos += 1;
@@ -341,6 +361,7 @@ impl Sched {
         let site = match point {
             Point::Site(s) => s,
             Point::OpBoundary => 100,
+            Point::Yield => 104,
             Point::Exit => 101,
             Point::Start => 102,
             Point::ExtBlock => 103,
@@ -445,6 +466,28 @@ impl SimThread {
                 let _g = self.hand_over(g, next, Point::Site(site_id));
             }
         }
+    }
+
+    /// The library called `sched_yield` / slept inside a call.
+    /// Returns true if another thread was given the CPU.
+    pub fn yielded(&self) -> bool {
+        let mut g = self.lock();
+        g = self.repark(g);
+        g.yields += 1;
+        // only a switch counts as progress: a thread that keeps yielding with nobody to
+        // switch to must look stuck to the driver's watchdog
+        let others = (0..g.n).any(|t| t != self.idx && g.tstate[t] == TState::Runnable && !g.held[t]);
+        if !others {
+            return false;
+        }
+        if let Some(next) = g.decide(Some(self.idx), Point::Yield) {
+            if next != self.idx {
+                CLOCK.fetch_add(1, Ordering::Relaxed);
+                let _g = self.hand_over(g, next, Point::Yield);
+                return true;
+            }
+        }
+        false
     }
 
     /// Scheduling point between operations (and between polls of one operation).
@@ -591,6 +634,7 @@ pub fn drive(
     let mut g = lock(&shared.m);
     let mut last_clock = CLOCK.load(Ordering::Relaxed);
     let mut stuck = 0u32;
+    let mut spinning = 0u32;
     let mut idle_polls = 0u32;
     loop {
         if g.done {
@@ -628,6 +672,7 @@ pub fn drive(
         if c != last_clock {
             last_clock = c;
             stuck = 0;
+            spinning = 0;
             idle_polls = 0;
             continue;
         }
@@ -654,8 +699,18 @@ pub fn drive(
                 } else {
                     stuck = 0;
                 }
-                if stuck >= 4 {
+                // a token holder that is runnable but has not reached a single hook site for
+                // 60 ms is spinning on something another (parked) simulated thread holds — a
+                // spin lock, a yield/sleep back-off loop: treat it like a blocked thread
+                if st == Some('R') {
+                    spinning += 1;
+                } else {
+                    spinning = 0;
+                }
+                let others = (0..g.n).any(|t| t != cur && g.tstate[t] == TState::Runnable);
+                if stuck >= 4 || (spinning >= 12 && others) {
                     stuck = 0;
+                    spinning = 0;
                     g.tstate[cur] = TState::ExtBlocked;
                     cell.must_park.store(true, Ordering::Relaxed);
                     g.ext_blocked += 1;
